@@ -146,7 +146,8 @@ func generate(ld *Loaded, cs *Contracts, fc *FuncContract) (res *FuncResult) {
 				env.vars[n] = v
 			}
 			bindResults(env, rvals, rnames)
-			g := env.evalBool(cl.Expr)
+			g, sk := env.evalGoalSkolem(cl.Expr)
+			ex.instantiateHyps(sk)
 			label := cl.Label
 			if label == "" {
 				label = fmt.Sprintf("L%d", cl.Line)
